@@ -102,8 +102,24 @@ KIND_OF_NAME = {'rt-as2', 'rt-ip4', 'rt-as4', 'ro-as2', 'ro-ip4', 'ro-as4', 'col
 
 # ------------------------------------------------------------------------------------------------ the C17 oracle
 
+class _Also(object):
+    """failures of the send/update endpoint are failures of C16 too ("the UPDATE written is the one requested")"""
+
+    def __init__(self, res, also):
+        self._res = res
+        self._also = also
+        self.stats = res.stats
+
+    def fail(self, prop, what, replay, key=None):
+        self._res.fail(prop, what, replay, key=key)
+        for p in self._also:
+            self._res.fail(p, what, replay, key=key)
+
+
 def oracle_ext(res, xd, rest, endpoint, cases, multi=None):
     """cases: [(kind, fields)] all in range and admissible for this peer.  Evaluates the property on the real code."""
+    if endpoint == 'send/update':
+        res = _Also(res, ['C16'])
     specs = xd.batch([{'op': 'spec.rfcextcomm', 'kind': k, 'fields': f} for k, f in cases])
     for (k, f), sp in zip(cases, specs):
         case = {'kind': k, 'fields': f, 'peer': rest.kind, 'endpoint': endpoint}
@@ -634,7 +650,7 @@ def run(seed, tier, driver):
                 mlt = [l for l in multi if rest.caps['four'] or not any(k.endswith('as4') for k, _ in l)]
                 for endpoint in ('json_to_bin', 'send/update'):
                     sub = cases if (endpoint == 'json_to_bin' or tier != 'quick') else cases[::5]
-                    oracle_ext(res, xd, rest, endpoint, sub, mlt if endpoint == 'json_to_bin' else mlt[:3])
+                    oracle_ext(res, xd, rest, endpoint, sub, mlt if endpoint == 'json_to_bin' else mlt[:40])
                     if kind == 'as4':
                         oracle_rendered(res, rest, endpoint, r, n_rand)
                         oracle_comm(res, rest, endpoint, r, n_rand * (4 if endpoint == 'json_to_bin' else 1))
